@@ -18,11 +18,11 @@ def bounds(tier):
 
 def assume(a, ps):
     return [a[0] == ps, z3.ULT(a[1], 1 << 12), z3.UGE(a[1], 1), z3.ULT(a[5], 1 << 12), z3.UGE(a[5], 1)] + \
-           [z3.ULE(a[i], 1) for i in (2, 3, 4, 6, 7, 8, 9)]
+           [z3.ULE(a[i], 1) for i in (2, 3, 4, 6, 7, 8, 9, 10)]
 
 
 def slices(tier, rng):
-    out = [Slice('unrelated-ps%d' % ps, 't_unrelated', 10, lambda a, ps=ps: assume(a, ps), opts={'must_reach': ['ok/ok']}, ctx={'t': 'u'}) for ps in (4, 8)]
+    out = [Slice('unrelated-ps%d' % ps, 't_unrelated', 11, lambda a, ps=ps: assume(a, ps), opts={'must_reach': ['ok/ok']}, ctx={'t': 'u'}) for ps in (4, 8)]
     out.append(Slice('modtype-ps4', 't_modtype', 4, lambda a: [a[0] == 4, z3.ULT(a[1], 1 << 12), z3.UGE(a[1], 1), z3.ULT(a[2], 1 << 12), z3.UGE(a[2], 1), z3.ULE(a[3], 1)],
                      opts={'must_reach': ['ok/ok']}, ctx={'t': 'modtype'}))
     return out
@@ -57,7 +57,7 @@ def describe(template, args):
     if template == 't_modtype':
         return ('// pointer size %d\nmodule p::q: #[size(%d), align(1)] extern type %s; #[packed] pub type R { pub f: %s }\n'
                 'module p: (first build: empty; second build: #[size(%d), align(1)] extern type %s;)') % (a[0], a[1], 'S' if a[3] else 'q', 'S' if a[3] else 'q', a[2], 'S' if a[3] else 'q')
-    u = [x for x, f in (('type R', a[3]), ('extern type S (size %d)' % a[5], a[4]), ('type RVftable', a[6]), ('enum K', a[7]), ('use m', a[8])) if f]
+    u = [x for x, f in (('type R', a[3]), ('extern type S (size %d)' % a[5], a[4]), ('type RVftable', a[6]), ('enum K', a[7]), ('use m', a[8]), ('impl R { #[address(4096)] pub fn from_u(&self); }', a[10] if len(a) > 10 else 0)) if f]
     return ('// pointer size %d\nmodule n: #[size(%d), align(1)] extern type S;\nmodule m: use n; #[packed] pub type R { %spub p: *const R, pub f: S } '
             'pub enum K: u32 { A }\nmodule u (unrelated, added %s): %s') % (a[0], a[1], 'vftable { pub fn f(&self); }, ' if a[2] else '',
                                                                            'first' if a[9] else 'last', ', '.join(u) or '(empty)')
